@@ -12,6 +12,9 @@ os.environ.pop("PYMARKDOWN_VERIF_TRACE", None)
 if REPO not in sys.path:
     sys.path.insert(0, REPO)
 
+import logging as _logging
+_logging.lastResort = None          # API calls inherit logging: keep library warnings out of the checks' stderr
+
 VERIF = os.path.dirname(os.path.dirname(os.path.abspath(__file__)))
 PLUGINS = os.path.join(VERIF, "plugins")
 
